@@ -357,6 +357,14 @@ pub fn run(rep: &mut Report) {
     }
     // quire -> PxE2<N>
     rep.generated("Q32E2 accumulator (generated histories) -> PxE2<N>, all N", tier.pick(40_000, 800_000), || (2u32..=32, history::<P32E2>(false, 8)), |(n, (steps, _)), l| from_quire_dispatch(*n, steps, l));
+    // seeded C14-r3-m1: the sticky mask below the 64-bit window one bit short — only a threshold of the
+    // N-bit format plus ONE bit exactly 64 places below the leading bit shows it
+    rep.generated(
+        "Q32E2 accumulator (tie-directed histories: threshold of the N-bit format + one distant sticky term at a drawn depth) -> PxE2<N>, all N",
+        tier.pick(120_000, 2_000_000),
+        || (2u32..=32).prop_flat_map(|n| (Just(n), super::quire::tie_history_w::<P32E2>(n))),
+        |(n, (steps, _)), l| from_quire_dispatch(*n, steps, l),
+    );
 }
 
 pub fn replay(op: &str, args: &[u64]) -> Result<(), Viol> {
